@@ -648,15 +648,25 @@ func c18ClassifyDump(dump string, mine string) []string {
 		if !blockedR && !blockedW {
 			continue
 		}
-		// the innermost frame of the cache package is the function that asked for the lock
+		// the innermost METHOD of the cache package is what asked for the lock: package-level helpers in between
+		// (a refactoring may route the locking through one, e.g. a generic applyOp) say nothing about whose lock it is
 		inner := ""
 		for _, l := range strings.Split(g, "\n") {
-			if strings.HasPrefix(l, "github.com/MichaelMure/git-bug/cache.") {
+			if strings.HasPrefix(l, "github.com/MichaelMure/git-bug/cache.(") {
 				inner = l
 				break
 			}
 		}
-		innerHandle := strings.Contains(inner, "cache.(*BugCache).") || strings.Contains(inner, "cache.(*CachedEntityBase[") || strings.Contains(inner, "cache.(*withSnapshot[")
+		if inner == "" {
+			for _, l := range strings.Split(g, "\n") {
+				if strings.HasPrefix(l, "github.com/MichaelMure/git-bug/cache.") {
+					inner = l
+					break
+				}
+			}
+		}
+		innerHandle := strings.Contains(inner, "cache.(*BugCache).") || strings.Contains(inner, "cache.(*CachedEntityBase[") || strings.Contains(inner, "cache.(*withSnapshot[") ||
+			strings.Contains(inner, "cache.(*IdentityCache).")
 		switch {
 		case strings.Contains(inner, ").AllIds") && strings.Contains(g, "RepoCacheBug).Query"):
 			tags["stuck:query-allids-waits-rlock"] = true
